@@ -1257,12 +1257,11 @@ VALUE_CHANGES = [
      {'t': 'np', 'dtype': 'float32', 'v': 0.1}),
     ('awgn', 'rayleigh'),                     # not numeric
 ]
-if os.environ.get('C07_2D_PARAM'):
-    # off by default: with a 2-D ndarray parameter simulate() fails as soon as
-    # a results file name is set, interrupted or not (replace_dict_values ->
-    # get_mixed_range_representation -> np.hstack ValueError), see report
-    VALUE_CHANGES.append((_arr([[1.0, 2.0], [3.0, 4.0]]),
-                          _arr([[1.0, 2.0], [3.0, 4.00001]])))
+# a 2-D ndarray parameter (simulate() with a results file name used to fail
+# for it before /repo commit bb66258: replace_dict_values converted every
+# array, also those the file name does not use)
+VALUE_CHANGES.append((_arr([[1.0, 2.0], [3.0, 4.0]]),
+                      _arr([[1.0, 2.0], [3.0, 4.00001]])))
 # (old grid, new grid) of the unpacked parameter
 GRID_CHANGES = [
     ([0, 5], [0, 5.00001]),
